@@ -28,6 +28,7 @@ def run(prog, chk):
         "shipped writers declare GPOS / GDEF and build no substitution statement (R17.4)",
         "user features are parsed once, every writer works on that one object, the compiled source is its serialisation; without writers the user's text is used as is (R17.5)",
         "insert markers are only honoured in top-level feature blocks, first marker per tag (R17.6)",
+        "include() statements resolve against the parent directory of the UFO with and without feature writers (parseLayoutFeatures' includeDir; the file name buildTables hands to feaLib) (R17.7)",
     ]
     chk.not_decided += ["index arithmetic of marker placement", "GSUB byte identity", "feaLib's asFea() round trip"]
     chk.guard(r171, prog, chk)
@@ -36,6 +37,7 @@ def run(prog, chk):
     chk.guard(r174, prog, chk)
     chk.guard(r175, prog, chk)
     chk.guard(r176, prog, chk)
+    chk.guard(r177, prog, chk)
 
 
 # ----------------------------------------------------------------------------- R17.1
@@ -388,7 +390,74 @@ def r176(prog, chk):
     chk.minimum("R17.6", 3)
 
 
+
+# ----------------------------------------------------------------------------- R17.7
+def r177(prog, chk):
+    """include() statements resolve against the same directory - the parent of the UFO, as the UFO3 spec says - whether
+    the feature text is parsed for the writers (parseLayoutFeatures: explicit includeDir) or handed to feaLib as it is
+    when no writer runs (buildTables: feaLib takes dirname(filename))."""
+    ix = prog.ix
+
+    def is_ufo_path(e):
+        if isinstance(e, ast.Call) and A.callee_name(e) in ("normpath", "abspath", "fspath", "str") and e.args:
+            return is_ufo_path(e.args[0])
+        return isinstance(e, ast.Attribute) and e.attr == "path"
+    bt = ix.get_method("ufo2ft.featureCompiler.FeatureCompiler", "buildTables", own=True)
+    calls = [c for c in calls_named(bt, "addOpenTypeFeaturesFromString")]
+    need(calls, f"cannot interpret {bt.short}: addOpenTypeFeaturesFromString")
+    for c in calls:
+        fnarg = A.kwarg(c, "filename")
+        ok = fnarg is not None
+        if ok:
+            ok, bad = every_origin(prog, bt, fnarg, lambda e, f_: is_ufo_path(e), allow_const=True)
+        chk.ob("R17.7", f"{bt.short}|the file name given to feaLib is the UFO path itself (its parent is the include directory)", ok, where(bt, c), detail=T(c, 90),
+               message=f"{bt.short}: feaLib derives the include directory from dirname(filename); the file name is no longer the UFO path, so without feature writers include() "
+                       f"statements resolve against another directory than with them")
+    pl = ix.get_func("ufo2ft.featureCompiler:parseLayoutFeatures")
+    ps = [c for c in calls_named(pl, "Parser")]
+    need(len(ps) == 1, f"cannot interpret {pl.short}: Parser")
+    inc = A.kwarg(ps[0], "includeDir")
+
+    def ufo_path_expr(e, depth=0):
+        if depth > 6:
+            return False
+        if is_ufo_path(e):
+            return True
+        if isinstance(e, ast.Call) and A.callee_name(e) in ("normpath", "abspath", "fspath", "str") and e.args:
+            return ufo_path_expr(e.args[0], depth + 1)
+        if isinstance(e, ast.Name):
+            ds = prog.reaching(pl, e.id, e)
+            return bool(ds) and all(d.kind == "assign" and d.element()[1] is None and d.element()[0] is not None and ufo_path_expr(d.element()[0], depth + 1) for d in ds)
+        return False
+
+    def incl_ok(e, depth=0):
+        if depth > 8:
+            return False
+        if isinstance(e, ast.Constant):
+            return e.value is None or e.value == "."
+        if isinstance(e, ast.Name):
+            ds = prog.reaching(pl, e.id, e)
+            return bool(ds) and all(d.kind == "param" or (d.kind == "assign" and d.element()[1] is None and d.element()[0] is not None and incl_ok(d.element()[0], depth + 1)) for d in ds)
+        if isinstance(e, ast.IfExp):
+            return incl_ok(e.body, depth + 1) and incl_ok(e.orelse, depth + 1)
+        if isinstance(e, ast.BoolOp) and isinstance(e.op, ast.Or):
+            return all(incl_ok(v, depth + 1) for v in e.values)
+        if isinstance(e, ast.Call) and A.callee_name(e) in ("normpath", "abspath") and e.args:
+            return incl_ok(e.args[0], depth + 1)
+        if isinstance(e, ast.Call) and A.callee_name(e) == "dirname" and e.args:
+            return ufo_path_expr(e.args[0])
+        return False
+    ok = inc is not None and incl_ok(inc)
+    chk.ob("R17.7", f"{pl.short}|includeDir is the caller's, else the parent directory of the UFO", ok, where(pl, ps[0]), detail=T(ps[0], 80),
+           message=f"{pl.short}: include() statements are no longer resolved relative to the UFO's parent directory")
+    chk.minimum("R17.7", 2)
+
+
 MUTANTS = [
+    M("feaLib gets the features.fea path when no writer runs (seeded C17f)", "ufo2ft/featureCompiler.py", "FeatureCompiler.buildTables",
+      "self.ufo.path if not self.featureWriters else None", "os.path.join(self.ufo.path, 'features.fea') if not self.featureWriters else None", rule="R17.7"),
+    M("include directory is the UFO itself", "ufo2ft/featureCompiler.py", "parseLayoutFeatures",
+      "os.path.dirname(ufoPath) or '.'", "ufoPath", rule="R17.7"),
     M("statements before the marker dropped on split", "ufo2ft/featureWriters/baseFeatureWriter.py", "BaseFeatureWriter._insert",
       "afterBlock.statements = block.statements[markerIndex:]", "afterBlock.statements = block.statements[markerIndex + 1:]", rule="R17.1"),
     M("marked block removed even if it has rules", "ufo2ft/featureWriters/baseFeatureWriter.py", "BaseFeatureWriter._insert",
